@@ -189,6 +189,55 @@ func gen(t *rapid.T) Case {
 			break
 		}
 	}
+	// eighth seed batch: a request that touches many files (33-43: past 32, mostly no multiple of 8): a calling unit
+	// cloned under thirty-odd further class names
+	if !synth && clonedClass == "" && rapid.IntRange(0, 19).Draw(t, "manyCallers") == 19 {
+		target := c.Class + "." + c.Old
+		for i, u := range p.Units {
+			if u.Kind != "Class" || u.FullName() == c.Class || len(p.Files[i].Text) > 20000 {
+				continue
+			}
+			calls := false
+			for _, f := range u.Funcs {
+				for _, e := range f.Events {
+					if e.Target == target && e.Resolve {
+						calls = true
+					}
+				}
+			}
+			if !calls {
+				continue
+			}
+			n := rapid.IntRange(31, 41).Draw(t, "manyCallersCount")
+			files := append([]jgen.File(nil), c.Project.Files...)
+			units := append([]jgen.UnitTruth(nil), c.Project.Units...)
+			ok := true
+			for k := 0; k < n && ok; k++ {
+				twin := fmt.Sprintf("Zq%02d%s", k, u.Name)
+				for _, f := range p.Files {
+					if strings.Contains(f.Text, twin) {
+						ok = false
+					}
+				}
+				nu := u
+				nu.Name = twin
+				nu.Path = strings.TrimSuffix(u.Path, u.Name+".java") + twin + ".java"
+				nu.Funcs = append([]jgen.FuncTruth(nil), u.Funcs...)
+				for j := range nu.Funcs {
+					if nu.Funcs[j].IsCtor {
+						nu.Funcs[j].Name = twin
+					}
+				}
+				files = append(files, jgen.File{Path: nu.Path, Text: replaceIdent(p.Files[i].Text, u.Name, twin)})
+				units = append(units, nu)
+			}
+			if ok {
+				c.Project.Files, c.Project.Units = files, units
+				clonedClass = u.FullName()
+			}
+			break
+		}
+	}
 	// sometimes a class whose name resembles the subject's class
 	look := ""
 	if rapid.IntRange(0, 4).Draw(t, "lookalike") == 4 {
